@@ -77,7 +77,8 @@ op_strategy = st.fixed_dictionaries(dict(
     # request a time derivative together with (and before / after) the
     # variable it derives from, when the simulation wrote both: their ET
     # names contain one another (alp/dtalp, betax/dtbetax)
-    dtpair=st.sampled_from([0, 0, 0, 1, 2])))
+    dtpair=st.sampled_from([0, 0, 0, 1, 2]),
+    verbose=st.sampled_from([0, 0, 0, 0, 1, 2, 3])))
 
 DT_PAIRS = [("admbase-dtlapse", "admbase-lapse"),
             ("admbase-dtshift", "admbase-shift")]
@@ -224,8 +225,13 @@ def run_history(case, note):
                 o.update(op=k, request=dict(kw), split_per_it=split)
                 note.fail(disc, o)
 
-            args = dict(skip_last=False, verbose=False, it=list(kw["it"]),
+            # verbose=True is the API default (output swallowed by quiet)
+            vb = int(op.get("verbose", 0))
+            args = dict(skip_last=False, verbose=vb > 0, it=list(kw["it"]),
                         vars=list(kw["vars"]), rl=rl, restart=restart)
+            if vb > 1:
+                args.update(veryverbose=True, veryextraverbose=vb > 2)
+                note.cls("veryverbose-read")
             try:
                 out = quiet(rd.read_data, param, split_per_it=split, **args)
             except Exception as e:  # noqa: BLE001
